@@ -742,3 +742,169 @@ func (sa *sharedAnalysis) rootPath(f *ssa.Function) string {
 	}
 	return fnKey(f)
 }
+
+// ---- S3: guarded-by consistency (frozen, reviewed lock table) ---------------------------------
+
+type guardedField struct {
+	typ, field string // "tcp.Server", "conns"  (typ == "" => package-level variable pkg.name in field)
+	lock       string // access-path suffix of the mutex: ".mu", "proxy.mu"
+	reason     string
+}
+
+// Inferred from "written under this lock somewhere", then confirmed by reading and frozen (DESIGN §4 S3).
+var lockTable = []guardedField{
+	{"tcp.Server", "listeners", ".mu", "appended by Serve, cleared by closeListeners, both under mu"},
+	{"tcp.Server", "conns", ".mu", "connection registry mutated by every accepted connection"},
+	{"proxy.grpcConnectionPool", "connections", ".lock", "pool map shared by all gRPC calls and cleanup()"},
+	{"route.GlobCache", "l", ".mu", "LRU ring of the glob cache"},
+	{"route.GlobCache", "h", ".mu", "LRU ring head"},
+	{"route.GlobCache", "n", ".mu", "LRU ring fill count"},
+	{"logger.logger", "w", ".mu", "shared access-log writer"},
+	{"cert.VaultPKISource", "certs", ".mu", "issued certificates, written by Issue and the expiry timers"},
+	{"", "proxy.servers", "proxy.mu", "registry of running servers"},
+}
+
+func (sa *sharedAnalysis) s3(rule string) int {
+	c := sa.c
+	n := 0
+	for _, f := range c.AllFns {
+		if isInitFn(f) {
+			continue
+		}
+		eachInstr(f, func(i ssa.Instruction) {
+			var addr ssa.Value
+			write := false
+			switch x := i.(type) {
+			case *ssa.UnOp:
+				if x.Op != token.MUL {
+					return
+				}
+				addr = x.X
+			case *ssa.Store:
+				addr, write = x.Addr, true
+			default:
+				return
+			}
+			var g *guardedField
+			switch a := addr.(type) {
+			case *ssa.FieldAddr:
+				for k := range lockTable {
+					lt := &lockTable[k]
+					if lt.typ != "" && namedIs(a.X.Type(), lt.typ) && fieldName(a.X.Type(), a.Field) == lt.field {
+						g = lt
+					}
+				}
+				if g != nil {
+					if _, isAlloc := a.X.(*ssa.Alloc); isAlloc {
+						return // constructor: object not shared yet
+					}
+				}
+			case *ssa.Global:
+				for k := range lockTable {
+					lt := &lockTable[k]
+					if lt.typ == "" && a.Pkg.Pkg.Name()+"."+a.Name() == lt.field {
+						g = lt
+					}
+				}
+			}
+			if g == nil {
+				return
+			}
+			// len()/cap() of a slice header that is assigned only by the constructor is not an access to the guarded contents
+			if u, isLoad := i.(*ssa.UnOp); isLoad && g.typ != "" {
+				if _, isSlice := u.Type().Underlying().(*types.Slice); isSlice && onlyLenCap(u) && !fieldStoredOutsideCtor(c, g.typ, g.field) {
+					return
+				}
+			}
+			n++
+			held := false
+			for _, h := range heldAt(i, write) {
+				if strings.HasSuffix(h, g.lock) {
+					held = true
+				}
+			}
+			if !held {
+				// every caller holds it?
+				if ok, _ := sa.lockedAtAll(i, write, 0); ok {
+					held = true
+				}
+			}
+			what := "read"
+			if write {
+				what = "write"
+			}
+			name := g.field
+			if g.typ != "" {
+				name = g.typ + "." + g.field
+			}
+			c.check(rule, fnKey(f)+"|"+what+" of "+name+" under "+strings.TrimPrefix(g.lock, "."), i.Pos(), held,
+				name+" ("+g.reason+") is guarded by "+g.lock+" everywhere else; this "+what+" does not hold it and races with the guarded accesses")
+		})
+	}
+	return n
+}
+
+// lockedAtAll: like lockedAt but over all repo callers (not only serving-reachable ones).
+func (sa *sharedAnalysis) lockedAtAll(at ssa.Instruction, write bool, depth int) (bool, string) {
+	if h := heldAt(at, write); len(h) > 0 {
+		return true, h[0]
+	}
+	if depth > 3 {
+		return false, ""
+	}
+	f := at.Parent()
+	var sites []ssa.Instruction
+	for _, g := range sa.c.AllFns {
+		eachInstr(g, func(i ssa.Instruction) {
+			if cc := callCommon(i); cc != nil && cc.StaticCallee() == f {
+				sites = append(sites, i)
+			}
+		})
+	}
+	if len(sites) == 0 {
+		return false, ""
+	}
+	for _, s := range sites {
+		if ok, _ := sa.lockedAtAll(s, write, depth+1); !ok {
+			return false, ""
+		}
+	}
+	return true, "held by every caller"
+}
+
+func onlyLenCap(v ssa.Value) bool {
+	refs := v.Referrers()
+	if refs == nil || len(*refs) == 0 {
+		return false
+	}
+	for _, r := range *refs {
+		call, ok := r.(*ssa.Call)
+		if !ok {
+			return false
+		}
+		if n := calleeName(&call.Call); n != "builtin.len" && n != "builtin.cap" {
+			return false
+		}
+	}
+	return true
+}
+
+func fieldStoredOutsideCtor(c *Ctx, typ, field string) bool {
+	found := false
+	for _, f := range c.AllFns {
+		eachInstr(f, func(i ssa.Instruction) {
+			st, ok := i.(*ssa.Store)
+			if !ok {
+				return
+			}
+			fa, ok := st.Addr.(*ssa.FieldAddr)
+			if !ok || !namedIs(fa.X.Type(), typ) || fieldName(fa.X.Type(), fa.Field) != field {
+				return
+			}
+			if _, isAlloc := fa.X.(*ssa.Alloc); !isAlloc {
+				found = true
+			}
+		})
+	}
+	return found
+}
